@@ -498,6 +498,48 @@ def explore_mtime(ctx, rng, stats, violations, disagreements):
 
 
 # ------------------------------------------------------------------------------------------------------------------
+# neighbouring stores: interleaved writes to DIFFERENT stores of one directory must not disturb each other
+# ------------------------------------------------------------------------------------------------------------------
+
+def explore_neighbours(ctx, rng, stats, violations):
+    """Two stores in one directory whose paths share a stem (data.pkl / data.bin / data), str and pathlib paths; the
+    write of the second store happens while the first store's staged write is open (as on the thread pool).  Afterwards
+    each store must return what was written to IT."""
+    import pathlib
+    from uberjob.stores import staged_write
+    names = ["data", "data.pkl", "data.bin", "data.txt", "data.v1.bin"]
+    n = 12 if ctx.tier == "quick" else 200
+    for _ in range(n):
+        a, b = rng.sample(names, 2)
+        use_pathlib = rng.random() < 0.6
+        va, vb = sc.gen_bytes(rng, 20) or b"a", sc.gen_bytes(rng, 20) or b"b"
+        with sc.scratch_dir("c12") as d:
+            pa, pb = os.path.join(d, a), os.path.join(d, b)
+            if use_pathlib:
+                pa, pb = pathlib.Path(pa), pathlib.Path(pb)
+            sa, sb = sc.make_store("BinaryFileStore", pa), sc.make_store("BinaryFileStore", pb)
+            err = None
+            try:
+                with staged_write(pa, "wb") as fa:      # store A's write is in flight …
+                    fa.write(va[:1])
+                    sb.write(vb)                          # … while store B is written completely
+                    fa.write(va[1:])
+            except Exception as e:                        # noqa: BLE001
+                err = e
+            stats["neighbour_pairs"] = stats.get("neighbour_pairs", 0) + 1
+            try:
+                ga, gb = (sa.read() if err is None else None), sb.read()
+            except Exception as e:                        # noqa: BLE001
+                ga, gb, err = None, None, e
+            if err is not None or ga != va or gb != vb:
+                violations.append({"property": "C12", "what": "two stores %r and %r (%s paths) in one directory disturb each other when their "
+                                   "writes overlap: %s" % (a, b, "pathlib" if use_pathlib else "str",
+                                                           repr(err) if err is not None else "read back %r / %r, written %r / %r" % (ga, gb, va, vb)),
+                                   "witness_case": {"kind": "neighbours", "a": a, "b": b, "pathlib": use_pathlib, "va": va.hex(), "vb": vb.hex()}})
+                return
+
+
+# ------------------------------------------------------------------------------------------------------------------
 # explore / replay
 # ------------------------------------------------------------------------------------------------------------------
 
@@ -515,6 +557,8 @@ def explore(ctx, seed_shift=0):
             explore_mounted(ctx, rng, stats, violations)
         if not violations:
             explore_mtime(ctx, rng, stats, violations, disagreements)
+        if not violations:
+            explore_neighbours(ctx, rng, stats, violations)
     finally:
         sc.cleanup_scratch()
     classes = sorted(stats.pop("classes"))
@@ -605,6 +649,25 @@ def replay(ctx, payload):
         if w.get("kind") == "mtime":
             found, _, _ = run_mtime(w)
             return "; ".join(found) if found else None
+        if w.get("kind") == "neighbours":
+            import pathlib
+            from uberjob.stores import staged_write
+            va, vb = bytes.fromhex(w["va"]), bytes.fromhex(w["vb"])
+            with sc.scratch_dir("c12") as d:
+                pa, pb = os.path.join(d, w["a"]), os.path.join(d, w["b"])
+                if w["pathlib"]:
+                    pa, pb = pathlib.Path(pa), pathlib.Path(pb)
+                sa, sb = sc.make_store("BinaryFileStore", pa), sc.make_store("BinaryFileStore", pb)
+                try:
+                    with staged_write(pa, "wb") as fa:
+                        fa.write(va[:1])
+                        sb.write(vb)
+                        fa.write(va[1:])
+                    if sa.read() != va or sb.read() != vb:
+                        return "two stores in one directory disturb each other when their writes overlap"
+                except Exception as e:      # noqa: BLE001
+                    return "two stores in one directory disturb each other when their writes overlap: %r" % (e,)
+            return None
     finally:
         sc.cleanup_scratch()
     return None
